@@ -521,7 +521,13 @@ func (s *scen) callWrite(api string, mlen int) {
 // finish: let what was written arrive at the peer, then End
 func (s *scen) finish() {
 	s.phase = "drain"
-	deadline := time.Now().Add(3 * s.cfg.budget)
+	// what a completed write handed to the kernel arrives within milliseconds; the
+	// patience is counted from the last progress
+	patience := 300 * time.Millisecond
+	if !s.cfg.exact {
+		patience = 1500 * time.Millisecond
+	}
+	deadline := time.Now().Add(patience)
 	idle := 0
 	for {
 		progress := s.drain(1<<22, 0) > 0
@@ -545,7 +551,9 @@ func (s *scen) finish() {
 			continue
 		}
 		idle = 0
-		if !progress {
+		if progress {
+			deadline = time.Now().Add(patience)
+		} else {
 			if time.Now().After(deadline) || s.mem != nil {
 				break
 			}
